@@ -11,6 +11,8 @@ import (
 	"fmt"
 	"io"
 	"math/rand"
+	"net/http"
+	"net/http/httptest"
 	"os"
 	"path/filepath"
 	"reflect"
@@ -56,6 +58,9 @@ type cliConf struct {
 	Consensus   string   `json:"consensus_protocol,omitempty"`
 	Name        string   `json:"name"`
 	AmountOrder string   `json:"amount_order,omitempty"`
+	// Keymanager: key shares are pushed to one keymanager API per node (--keymanager-addresses)
+	// instead of being written to the node directories
+	Keymanager bool `json:"keymanager_mode,omitempty"`
 
 	net netInfo
 }
@@ -111,6 +116,11 @@ func genCLIConf(idx int, rng *rand.Rand) cliConf {
 	}
 	conf.Nodes = 3 + (idx*5+idx/8)%8
 	conf.Validators = 1 + rng.Intn(3)
+	if idx%6 == 1 {
+		// several validators, so that the order of the pushed keystores and of their passwords matters
+		conf.Keymanager = true
+		conf.Validators = 2 + rng.Intn(5)
+	}
 	switch rng.Intn(5) {
 	case 0: // default threshold
 	case 1:
@@ -458,6 +468,20 @@ func runCLIConf(c *kit.Case, idx int, conf cliConf, maxSubsets int) {
 		}
 	}
 
+	var kms []*kmServer
+	if conf.Keymanager {
+		var addrs, tokens []string
+		for i := 0; i < conf.Nodes; i++ {
+			km := newKMServer()
+			defer km.srv.Close()
+			kms = append(kms, km)
+			addrs = append(addrs, km.srv.URL)
+			tokens = append(tokens, fmt.Sprintf("token-%d", i))
+		}
+		args = append(args, "--keymanager-addresses", strings.Join(addrs, ","), "--keymanager-auth-tokens", strings.Join(tokens, ","))
+		r.Count("cli_runs_keymanager_mode", 1)
+	}
+
 	root := cmd.New()
 	root.SetArgs(args)
 	root.SetOut(io.Discard)
@@ -644,10 +668,25 @@ func runCLIConf(c *kit.Case, idx int, conf cliConf, maxSubsets int) {
 		if err != nil || !rec.PubKey.IsEqual(key.PubKey()) {
 			viol("enr-key/mismatch", fmt.Sprintf("node%d: charon-enr-private-key does not belong to operator %d's ENR in the lock (err=%v)", i, i, err), nil)
 		}
-		secrets, declared, err := loadKeystores(filepath.Join(nodeDir(i), "validator_keys"))
-		if err != nil {
-			viol("keystore/unreadable", fmt.Sprintf("node%d: %v", i, err), nil)
-			continue
+		var (
+			secrets  map[int]tbls.PrivateKey
+			declared map[int]string
+		)
+		if conf.Keymanager {
+			// what node i's keymanager was handed: keystore k must open with password k and hold this
+			// node's share of validator k (the keymanager API pairs them by position)
+			secrets, declared, err = kms[i].imported()
+			if err != nil {
+				viol("keymanager/import-unusable", fmt.Sprintf("node%d: the keystores pushed to its keymanager cannot be opened with the passwords pushed alongside them: %v", i, err), nil)
+				continue
+			}
+			r.Count("keymanager_imports_checked", 1)
+		} else {
+			secrets, declared, err = loadKeystores(filepath.Join(nodeDir(i), "validator_keys"))
+			if err != nil {
+				viol("keystore/unreadable", fmt.Sprintf("node%d: %v", i, err), nil)
+				continue
+			}
 		}
 		if len(secrets) != conf.Validators {
 			viol("keystore/count", fmt.Sprintf("node%d has %d keystores, lock has %d validators", i, len(secrets), conf.Validators), nil)
@@ -848,6 +887,34 @@ func runCLIConf(c *kit.Case, idx int, conf cliConf, maxSubsets int) {
 		rng.Shuffle(len(subsets), func(i, j int) { subsets[i], subsets[j] = subsets[j], subsets[i] })
 		subsets = subsets[:maxSubsets]
 	}
+	if conf.Keymanager {
+		// no key shares on disk to run combine on: recombine what the keymanagers were handed
+		for _, subset := range subsets {
+			for vi := range conf.Validators {
+				shares := map[int]tbls.PrivateKey{}
+				for _, ni := range subset {
+					if sec, _, err := kms[ni].imported(); err == nil {
+						if s, ok := sec[vi]; ok {
+							shares[ni+1] = s
+						}
+					}
+				}
+				if len(shares) < t {
+					continue // already reported above
+				}
+				rec, err := tbls.RecoverSecret(shares, uint(conf.Nodes), uint(t))
+				var pub tbls.PublicKey
+				if err == nil {
+					pub, err = tbls.SecretToPublicKey(rec)
+				}
+				if err != nil || !bytes.Equal(pub[:], lock.Validators[vi].PubKey) {
+					viol("keymanager/recombined-key-mismatch", fmt.Sprintf("the shares of validator %d pushed to the keymanagers of nodes %v do not recombine to the lock's validator key (err=%v)", vi, subset, err), map[string]any{"subset": subset})
+				}
+				r.Count("keymanager_recombinations_checked", 1)
+			}
+		}
+		subsets = nil
+	}
 	var testnet eth2util.Network
 	for si, subset := range subsets {
 		in := filepath.Join(tmp, fmt.Sprintf("in%d", si))
@@ -976,4 +1043,64 @@ func genDefFileConf(j int, rng *rand.Rand, thorough bool) cliConf {
 	conf.Name = fmt.Sprintf("verif-c12-deffile-%d", j)
 
 	return conf
+}
+
+// kmServer is a minimal keymanager API (POST /eth/v1/keystores) that records what it is handed.
+type kmServer struct {
+	srv *httptest.Server
+	mu  sync.Mutex
+	req struct {
+		Keystores []string `json:"keystores"`
+		Passwords []string `json:"passwords"`
+	}
+	calls int
+}
+
+func newKMServer() *kmServer {
+	km := &kmServer{}
+	km.srv = httptest.NewServer(http.HandlerFunc(func(w http.ResponseWriter, r *http.Request) {
+		if r.Method != http.MethodPost || r.URL.Path != "/eth/v1/keystores" {
+			w.WriteHeader(http.StatusNotFound)
+			return
+		}
+		b, _ := io.ReadAll(r.Body)
+		km.mu.Lock()
+		km.calls++
+		_ = json.Unmarshal(b, &km.req)
+		km.mu.Unlock()
+		w.WriteHeader(http.StatusOK)
+		_, _ = w.Write([]byte(`{"data":[]}`))
+	}))
+
+	return km
+}
+
+// imported opens keystore k with password k, for every k.
+func (km *kmServer) imported() (map[int]tbls.PrivateKey, map[int]string, error) {
+	km.mu.Lock()
+	defer km.mu.Unlock()
+	if km.calls != 1 {
+		return nil, nil, fmt.Errorf("%d import requests, want 1", km.calls)
+	}
+	if len(km.req.Keystores) != len(km.req.Passwords) {
+		return nil, nil, fmt.Errorf("%d keystores but %d passwords", len(km.req.Keystores), len(km.req.Passwords))
+	}
+	secrets, declared := map[int]tbls.PrivateKey{}, map[int]string{}
+	for k, raw := range km.req.Keystores {
+		var ks ksFile
+		if err := json.Unmarshal([]byte(raw), &ks); err != nil {
+			return nil, nil, fmt.Errorf("keystore #%d: %w", k, err)
+		}
+		b, err := keystorev4.New().Decrypt(ks.Crypto, km.req.Passwords[k])
+		if err != nil {
+			return nil, nil, fmt.Errorf("keystore #%d does not open with password #%d: %w", k, k, err)
+		}
+		secret, err := tblsconv.PrivkeyFromBytes(b)
+		if err != nil {
+			return nil, nil, err
+		}
+		secrets[k], declared[k] = secret, ks.Pubkey
+	}
+
+	return secrets, declared, nil
 }
